@@ -28,19 +28,33 @@ def main():
     if a.replay:
         sys.exit(mod.replay(json.load(open(a.replay))))
     res = common.Result(a.property, a.tier, seed)
-    if not a.no_build:
-        ok, log = common.ensure_built(a.property)
-        if not ok:
-            res.violation("proof", "the Coq development does not build: " + log[-1500:], {"build_log": log[-3000:]})
-    res.audit = common.audit_property(a.property, a.tier)
     try:
+        if not a.no_build:
+            ok, log = common.ensure_built(a.property)
+            if not ok:
+                res.violation("proof", "the Coq development does not build: " + log[-1500:], {"build_log": log[-3000:]})
+        res.audit = common.audit_property(a.property, a.tier)
         import puan
         assert os.path.realpath(os.path.dirname(os.path.dirname(puan.__file__))) == os.path.realpath(REPO), puan.__file__
         mod.run(res, a.tier, seed)
     except Exception as e:
         import traceback
         res.violation("infra", f"check crashed: {type(e).__name__}: {e}", {"traceback": traceback.format_exc()[-3000:]})
-    sys.exit(res.finish())
+    try:
+        rc = res.finish()
+    except Exception as e:                      # last resort: the interface still gets its VIOLATION line
+        import traceback
+        os.makedirs(common.REPLAYS, exist_ok=True)
+        path = os.path.join(common.REPLAYS, f"{a.property}_{a.tier}_unchecked.json")
+        try:
+            json.dump({"property": a.property, "kind": "no-failing-input-found",
+                       "no_longer_checks": [{"what": "infra", "description": f"verdict could not be written: {type(e).__name__}: {e}",
+                                             "detail": {"traceback": traceback.format_exc()[-3000:]}}]}, open(path, "w"), indent=1)
+        except Exception:
+            pass
+        print(f"VIOLATION property={a.property} replay={path} no-failing-input-found")
+        rc = 1
+    sys.exit(rc)
 
 if __name__ == "__main__":
     main()
